@@ -240,6 +240,14 @@ def step (st : St) (line : String) : St × String :=
       | some k, some ts, some m, some len, some seed =>
         ({ st with pending := .write k ts m ⟨len, if len == 0 then 0 else seed⟩ (out == "ok" || out.startsWith "ok ") (out.endsWith " switched") cancelled }, "ok")
       | _, _, _, _, _ => (st, "skip")
+    | ["closerace", _, k, ts, len, seed] =>
+      -- a close of the active blob raced by a write: both succeed; the write lands in a blob that is active afterwards
+      match hexNat k, ts.toNat?, len.toNat?, seed.toNat? with
+      | some k, some ts, some len, some seed =>
+        if out == "close=ok w=ok" then
+          ({ st with pending := .write k ts none ⟨len, if len == 0 then 0 else seed⟩ true false false }, "ok")
+        else (st, "MISMATCH closerace: " ++ out)
+      | _, _, _, _ => (st, "skip")
     | ["race2", _, k, ts, la, sa, lb, sb] =>
       match hexNat k, ts.toNat?, la.toNat?, sa.toNat?, lb.toNat?, sb.toNat? with
       | some k, some ts, some la, some sa, some lb, some sb =>
